@@ -7,6 +7,18 @@ ids = [json.loads(l)["id"] for l in open(os.path.join(ROOT, "properties.jsonl"))
 
 TECH = "deterministic whole-program simulation (std-facade substitution under a seeded scheduler) with fault injection; "
 CLAIMED = {
+    "C06": dict(
+        level="exploration", ref="DESIGN.md 5/C06",
+        text="Seeded histories (2-40 steps) of writes/removes/increments/incremental and reclaiming snapshots/restarts over 1-2 databases; each restart (process kill after a completed snapshot + real start_db on the surviving simulated disk) is compared key by key, version by version and for id/strategy with the state captured when the snapshot completed; sampling.",
+        note="simulated disk (inode semantics), clock and declutter timer; $connections ignored",
+        technique=TECH + "restart-on-surviving-disk compared with the state at the last completed snapshot",
+    ),
+    "C11": dict(
+        level="fault_enumeration", ref="DESIGN.md 5/C11",
+        text="For each seeded dataset pair the mutating disk calls of the interrupted snapshot are counted in a fault-free run, then the node is killed before/after call k (quick: 6 sampled points per dataset, thorough: every point) and restarted by the real start_db; every key must hold its old or its new (value, version), persisted keys must survive, neighbours must be untouched. Crash points are enumerated per dataset; datasets are sampled.",
+        note="crash model = process kill (completed syscalls survive, user-space buffers are lost); no fsync/power-loss claim; the space-reclaiming path is a recorded known finding (known_findings.json)",
+        technique=TECH + "crash-point enumeration over every mutating disk call of the snapshot path, restart and old-or-new oracle",
+    ),
     "C01": dict(
         level="exploration", ref="DESIGN.md 5/C01",
         text="Seeded generation of 1-30 command histories (incl. snapshot requests) against a plain-map oracle on a node booted by the real start_db, with the real background snapshot either between commands or released to race with them at lock granularity; sampling.",
